@@ -27,6 +27,13 @@ pub fn raw_bytes(n: usize) -> Vec<u8> {
     (0..n).map(byte_at).collect()
 }
 
+/// payload bytes of a salted resource (salt 0 = `raw_bytes`): resources that
+/// differ in their salt have different contents, so a chunk delivered to the
+/// wrong stream is visible in the bytes and not only in the lengths
+pub fn raw_bytes_s(n: usize, salt: usize) -> Vec<u8> {
+    (0..n).map(|i| byte_at(i + salt * 7919)).collect()
+}
+
 #[derive(Serialize, Deserialize, Clone, PartialEq, Debug)]
 pub struct Val {
     pub id: u32,
@@ -35,10 +42,15 @@ pub struct Val {
 }
 
 pub fn val_for(m: usize) -> Val {
+    val_for_s(m, 0)
+}
+
+pub fn val_for_s(m: usize, salt: usize) -> Val {
+    let o = salt * 7919;
     Val {
-        id: 0xC090_0000u32.wrapping_add(m as u32),
-        text: (0..m).map(|i| (b'a' + byte_at(i) % 26) as char).collect(),
-        nums: (0..m % 5).map(|i| (i * 257 + m) as u16).collect(),
+        id: 0xC090_0000u32.wrapping_add(m as u32).wrapping_add((salt as u32) << 16),
+        text: (0..m).map(|i| (b'a' + byte_at(i + o) % 26) as char).collect(),
+        nums: (0..m % 5).map(|i| (i * 257 + m + salt * 31) as u16).collect(),
     }
 }
 
@@ -46,23 +58,36 @@ pub fn typed_for(m: usize) -> Vec<u8> {
     raw_bytes(m)
 }
 
+pub fn typed_for_s(m: usize, salt: usize) -> Vec<u8> {
+    raw_bytes_s(m, salt)
+}
+
 pub fn complex_for(m: usize) -> Vec<Complex<i8>> {
+    complex_for_s(m, 0)
+}
+
+pub fn complex_for_s(m: usize, salt: usize) -> Vec<Complex<i8>> {
+    let o = salt * 7919;
     (0..m)
-        .map(|i| Complex { re: byte_at(2 * i) as i8, im: byte_at(2 * i + 1) as i8 })
+        .map(|i| Complex { re: byte_at(2 * i + o) as i8, im: byte_at(2 * i + 1 + o) as i8 })
         .collect()
 }
 
 /// The producer's complete logical byte stream for (kind, m).
 pub fn logical(kind: Kind, m: usize) -> Vec<u8> {
+    logical_s(kind, m, 0)
+}
+
+pub fn logical_s(kind: Kind, m: usize, salt: usize) -> Vec<u8> {
     match kind {
         Kind::Value => {
             let mut v = Vec::new();
-            beve::to_writer_streaming(&mut v, &val_for(m)).expect("encode value");
+            beve::to_writer_streaming(&mut v, &val_for_s(m, salt)).expect("encode value");
             v
         }
-        Kind::Typed => beve::to_vec_typed_slice(&typed_for(m)),
-        Kind::Complex => beve::to_vec_complex_slice(&complex_for(m)),
-        Kind::Reader | Kind::Writer => raw_bytes(m),
+        Kind::Typed => beve::to_vec_typed_slice(&typed_for_s(m, salt)),
+        Kind::Complex => beve::to_vec_complex_slice(&complex_for_s(m, salt)),
+        Kind::Reader | Kind::Writer => raw_bytes_s(m, salt),
     }
 }
 
@@ -121,6 +146,8 @@ pub struct Spec {
     pub fail_at: Option<usize>,
     /// the failure is a panic of the producer thread instead of an `Err`
     pub panic: bool,
+    /// content salt (optional trailing resource field `s<k>`; 0 when absent)
+    pub salt: usize,
 }
 
 pub fn resource_of(m: usize, pat: Pat, fail_at: Option<usize>, panic: bool) -> String {
@@ -157,7 +184,8 @@ pub fn parse_resource(s: &str) -> Option<Spec> {
         None => (false, f),
     };
     let fail_at = if f == "-" { None } else { Some(f.parse().ok()?) };
-    Some(Spec { m, pat, fail_at, panic })
+    let salt = it.filter_map(|x| x.strip_prefix('s').and_then(|k| k.parse::<usize>().ok())).next().unwrap_or(0);
+    Some(Spec { m, pat, fail_at, panic, salt })
 }
 
 // ---------------------------------------------------------------------------
@@ -179,11 +207,11 @@ pub struct Hooks {
 }
 
 impl Hooks {
-    fn gate(&self) {
+    pub fn gate(&self) {
         // a closed permit channel is an open gate
         let _ = self.permits.recv();
     }
-    fn ev(&self, e: Ev) {
+    pub fn ev(&self, e: Ev) {
         let _ = self.events.send(e);
     }
 }
@@ -192,9 +220,9 @@ impl Hooks {
 pub struct Harness {
     permits: Option<Sender<()>>,
     events: Receiver<Ev>,
-    max_begin: i64,
-    max_end: i64,
-    returning: bool,
+    pub max_begin: i64,
+    pub max_end: i64,
+    pub returning: bool,
     pub waits_ok: bool,
 }
 
@@ -210,10 +238,10 @@ pub fn gate_pair() -> (Hooks, Harness) {
 const EVENT_WAIT: Duration = Duration::from_secs(3);
 
 impl Harness {
-    fn open_all(&mut self) {
+    pub fn open_all(&mut self) {
         self.permits = None;
     }
-    fn release_one(&mut self) {
+    pub fn release_one(&mut self) {
         if let Some(p) = &self.permits {
             let _ = p.send(());
         }
@@ -225,7 +253,7 @@ impl Harness {
             Ev::Returning => self.returning = true,
         }
     }
-    fn drain(&mut self) {
+    pub fn drain(&mut self) {
         while let Ok(e) = self.events.try_recv() {
             self.absorb(e);
         }
@@ -233,7 +261,7 @@ impl Harness {
     /// Wait for a *predicted positive* producer event. A miss only disables
     /// further waiting (the prediction rests on the channel-depth policy, which
     /// the property does not state); it is never a verdict.
-    fn wait_until(&mut self, pred: impl Fn(&Harness) -> bool) -> bool {
+    pub fn wait_until(&mut self, pred: impl Fn(&Harness) -> bool) -> bool {
         if !self.waits_ok {
             return false;
         }
@@ -257,8 +285,8 @@ impl Harness {
     }
 }
 
-fn write_pattern(w: &mut dyn Write, s: Spec, c: usize, h: Option<Hooks>) -> io::Result<()> {
-    let data = raw_bytes(s.m);
+pub fn write_pattern(w: &mut dyn Write, s: Spec, c: usize, h: Option<Hooks>) -> io::Result<()> {
+    let data = raw_bytes_s(s.m, s.salt);
     let limit = s.fail_at.unwrap_or(s.m).min(s.m);
     let ps = pieces(s.pat, s.m, c);
     let mut off = 0usize;
@@ -306,9 +334,9 @@ pub struct PatReader {
 }
 
 impl PatReader {
-    fn new(s: Spec, c: usize, hooks: Option<Hooks>) -> Self {
+    pub fn new(s: Spec, c: usize, hooks: Option<Hooks>) -> Self {
         PatReader {
-            data: raw_bytes(s.m),
+            data: raw_bytes_s(s.m, s.salt),
             ps: pieces(s.pat, s.m, c),
             idx: 0,
             left: 0,
@@ -374,7 +402,7 @@ impl Read for PatReader {
 /// level is not part of the property and only changes the encoder's footprint)
 pub static ZSTD_LEVEL: std::sync::atomic::AtomicI32 = std::sync::atomic::AtomicI32::new(1);
 
-type BoxedWriter = Box<dyn FnOnce(&mut dyn Write) -> io::Result<()> + Send>;
+pub type BoxedWriter = Box<dyn FnOnce(&mut dyn Write) -> io::Result<()> + Send>;
 
 /// A router carrying one SVS producer of `kind`; the resource string selects
 /// the payload. `hooks` (if any) is handed to the first reader/writer opened.
@@ -387,12 +415,12 @@ pub fn make_router(kind: Kind, c: usize, depth: usize, zstd: bool, hooks: Option
     };
     let hooks = Arc::new(Mutex::new(hooks));
     match kind {
-        Kind::Value => Router::new().with_value_stream(move |r: &str| parse_resource(r).map(|s| val_for(s.m)), opts),
+        Kind::Value => Router::new().with_value_stream(move |r: &str| parse_resource(r).map(|s| val_for_s(s.m, s.salt)), opts),
         Kind::Typed => {
-            Router::new().with_typed_value_stream(move |r: &str| parse_resource(r).map(|s| typed_for(s.m)), opts)
+            Router::new().with_typed_value_stream(move |r: &str| parse_resource(r).map(|s| typed_for_s(s.m, s.salt)), opts)
         }
         Kind::Complex => {
-            Router::new().with_complex_value_stream(move |r: &str| parse_resource(r).map(|s| complex_for(s.m)), opts)
+            Router::new().with_complex_value_stream(move |r: &str| parse_resource(r).map(|s| complex_for_s(s.m, s.salt)), opts)
         }
         Kind::Reader => Router::new().with_reader_stream(
             move |r: &str| parse_resource(r).map(|s| PatReader::new(s, c, hooks.lock().unwrap().take())),
@@ -437,7 +465,7 @@ pub struct CancelReq<'a> {
     pub reason: &'a str,
 }
 
-fn request(id: u64, path: &str, body: Vec<u8>) -> Message {
+pub fn request(id: u64, path: &str, body: Vec<u8>) -> Message {
     Message::builder()
         .id(id)
         .query_format(QueryFormat::JsonPointer)
@@ -467,7 +495,7 @@ pub fn classify_message(m: Message) -> Resp {
     }
 }
 
-fn raw_call(h: &Arc<dyn HandlerErased>, msg: &Message) -> Resp {
+pub fn raw_call(h: &Arc<dyn HandlerErased>, msg: &Message) -> Resp {
     match std::panic::catch_unwind(std::panic::AssertUnwindSafe(|| h.handle(msg))) {
         Ok(Ok(m)) => classify_message(m),
         Ok(Err(e)) => Resp::Error(format!("handler Err: {e}")),
@@ -719,11 +747,11 @@ impl Driver {
     }
 }
 
-fn first_diff(a: &[u8], b: &[u8]) -> usize {
+pub fn first_diff(a: &[u8], b: &[u8]) -> usize {
     a.iter().zip(b).position(|(x, y)| x != y).unwrap_or(a.len().min(b.len()))
 }
 
-fn zstd_partial(wire: &[u8]) -> Vec<u8> {
+pub fn zstd_partial(wire: &[u8]) -> Vec<u8> {
     let mut out = Vec::new();
     if let Ok(mut d) = zstd::stream::read::Decoder::new(wire) {
         let mut buf = [0u8; 4096];
